@@ -186,7 +186,7 @@ pub fn load_vector_instructions(map: &mut HashMap<String, Instruction>) {
     );
     map.insert(
         String::from("BOOLVECTOR.ROTATE"),
-        Instruction::new(bool_vector_rand),
+        Instruction::new(bool_vector_rotate),
     );
     map.insert(
         String::from("BOOLVECTOR.SHOVE"),
@@ -464,7 +464,7 @@ pub fn load_vector_instructions(map: &mut HashMap<String, Instruction>) {
     );
     map.insert(
         String::from("FLOATVECTOR.SUM"),
-        Instruction::new(float_vector_stack_depth),
+        Instruction::new(float_vector_sum),
     );
     map.insert(
         String::from("FLOATVECTOR.YANK"),
